@@ -743,6 +743,9 @@ def decide(ctx, st, kind, text, real, drv, known, label):
         st.known_hits[fid] = st.known_hits.get(fid, 0) + 1
         return
     n = len(ctx.violations)
+    if n >= 25:                       # enough replay files; the rest is only counted
+        st.more_violations = getattr(st, "more_violations", 0) + 1
+        return
     ctx.violation("C13-%s-%d.txt" % (label, n),
                   "# real engine / real SteelMacro disagrees with the specification S\n%s %s\n# real   = %s\n# driver = %s\n# class  = %s (inside G: any disagreement is a violation; outside G only when real != M or the class is not an open finding)\n"
                   % (kind, text, real, drv, ",".join(cls) or "G"))
@@ -934,6 +937,7 @@ def run(ctx):
         "rule": "programs: 1-%d macros drawn from 12 shapes (or2-like let binder, lambda binder, free-identifier wrapper, recursive, nested user of another macro, my-let + user, literal, literal passing, ellipsis depth 2/3, dotted, ellipsis+dotted) with spellings from small pools so that collisions occur; 1-3 uses at top level / under let / lambda / define parameters that do or do not shadow template binders, template free identifiers and literals; every binder bound to a distinct tag; distinct = distinct (S result, class). unit: random patterns (literals, nested, one ellipsis per list, dotted tails, depth <= %d) with a revealing template, instances of the pattern and mutated instances" % (g.max_macros, g.max_depth),
         "samples": st.samples, "real_eq_S": st.real_eq_S, "real_ne_S": st.real_ne_S, "inside_G": st.inside_G,
         "real_ne_M": len(st.real_ne_M), "by_class": st.by_class, "known_finding_hits": st.known_hits,
+        "violations_not_written": getattr(st, "more_violations", 0),
         "module_cases": mod_results, "mirror_disagreements": len(st.mirror_disagree),
         "axioms": pr.get("axioms", {}), "proof_failures": ["%s: %s" % f for f in pr["failed"]],
     }
